@@ -200,6 +200,10 @@ theorem C17_closure_arglist_is_array : Skeleton.current.pxArgsFreshPerInvocation
     a response must echo) is rewritten after decoding. -/
 theorem C17_codec_methods_are_plain : Skeleton.current.msgCodecPlain = true := by decide
 
+/-- `err` is the empty string exactly when the function's error IS nil: the results reach the responder untouched through `utils.Call`, and a closure whose declared error type is a concrete pointer type yields a nil `error` for its nil pointer — decided by `IsNil()` on the result value itself (both checked against the regenerated skeleton; `rpc/manager.go` and `utils/call.go` are outside this property's anchors). -/
+theorem C17_error_member_reflects_the_returned_error :
+    Skeleton.current.ucResultsUntouched = true ∧ Skeleton.current.clNilErrorViaIsNil = true := by decide
+
 end Panrpc.Wire
 
 #print axioms Panrpc.Wire.C17_closure_arglist_is_array
@@ -212,3 +216,4 @@ end Panrpc.Wire
 #print axioms Panrpc.Wire.C17_foreign_accepted
 #print axioms Panrpc.Wire.C17_frame_struct_per_iteration
 #print axioms Panrpc.Wire.C17_codec_methods_are_plain
+#print axioms Panrpc.Wire.C17_error_member_reflects_the_returned_error
